@@ -100,6 +100,15 @@ def gen_recovery_facts():
                 names = ast.unparse(h.type) if h.type is not None else "BaseException"
                 if ("Exception" in names and "Cancelled" not in names) and not any(isinstance(x, ast.Raise) for x in ast.walk(h)):
                     survives = True
+    # async_reset: a statement `self._spa_descriptors = None` after the last statement that awaits (the client's handlers run inside
+    # those awaits, and the sequence pump - another task - may complete a discovery meanwhile)
+    rst = find_function(man, "GeckoAsyncSpaMan.async_reset")
+    body = [b for b in rst.body if not (isinstance(b, ast.Expr) and isinstance(b.value, ast.Constant))]
+    aw_idx = [i for i, b in enumerate(body) if any(isinstance(x, ast.Await) for x in ast.walk(b))]
+    clr_idx = [i for i, b in enumerate(body) if isinstance(b, ast.Assign) and ast.unparse(b) == "self._spa_descriptors = None"]
+    if not aw_idx or not clr_idx:
+        raise Untranslatable("async_reset: no await or no `self._spa_descriptors = None`")
+    forgets_last = max(clr_idx) > max(aw_idx)
     lst = lambda xs: "[" + ", ".join(T.lstr(x) for x in xs) + "]"
     out = [T.HEADER, "namespace GeckoModel.Generated\n",
            f"/-- _sequence_pump locates when the state is one of these (and there are no descriptors) -/\ndef pumpLocateStates : List String := {lst(loc[1])}",
@@ -115,6 +124,7 @@ def gen_recovery_facts():
            f"/-- LOCATING_FINISHED moves the manager only from these states ([] = from any state) -/\ndef locatingFinishedGuard : List String := {lst(fin_guard)}",
            f"/-- the retry-exceeded events change the state only while the manager has a spa -/\ndef retryExceededNeedsSpa : Bool := {'true' if needs_spa else 'false'}",
            f"def pumpCatchesExceptions : Bool := {'true' if survives else 'false'}",
+           f"/-- async_reset clears the descriptors (again) after its last await -/\ndef resetForgetsDescriptorsLast : Bool := {'true' if forgets_last else 'false'}",
            "end GeckoModel.Generated\n"]
     return "\n".join(out)
 
